@@ -221,6 +221,10 @@ struct Builder {
   /// Clean up after interrupted commands by deleting output files.
   void Cleanup();
 
+  /// Delete the outputs (if modified, or if the rule has a depfile) and the
+  /// depfile of one interrupted command.
+  void CleanupInterruptedEdge(Edge* edge);
+
   Node* AddTarget(const std::string& name, std::string* err);
 
   /// Add a target to the build, scanning dependencies.
